@@ -18,6 +18,7 @@ func init() {
 	register(&Prop{
 		ID: "C15",
 		Rule: "ways/relations with 0..6 children (annotated or not) x update lists of 0..10 updates (index-sorted as annotation produces, time-sorted, or shuffled; several updates per child; out-of-range indices in ~8%) x t on/before/after stamps; compose with t1<=t2; " +
+			"times on quarter seconds; negative indices; the element carries a time stamp (every second one a commit time) in the middle of its updates' times; " +
 			"non-trivial = at least one update stamped <= t and one stamped > t, or an index error; distinct = distinct op line",
 		Gen:   c15Gen,
 		Exec:  c15Exec,
